@@ -19,10 +19,15 @@ ChainStep ==
     \/ /\ StrictOrder => ntfB = <<>>
        /\ \E t \in TxIds : Announce(t)
 
+CONSTANT Crashes   \* TRUE: Crash / Restart / RestartCrash enabled (C06)
+
 Next ==
-    \/ ChainStep /\ UNCHANGED followerVars
+    \/ up /\ ChainStep /\ UNCHANGED followerVars      \* the node runs only while the process is up
     \/ HandleBlock
     \/ HandleTx
+    \/ Crashes /\ Crash
+    \/ Crashes /\ Restart
+    \/ Crashes /\ \E k \in 1..MaxBlocks : RestartCrash(k)
 
 Spec == Init /\ [][Next]_vars
 
